@@ -19,11 +19,15 @@ struct Rep {
     /// key exposed by key()/into_key()/remove_entry()
     kraw: Option<u8>,
     kid: u32,
+    /// address of the key reference exposed by key() (0 = an owned key was returned)
+    ka: usize,
     /// value moved out (insert's old value, remove, remove_entry)
     out_val: Option<u32>,
     out_vid: u32,
     wrote: Option<u32>,
     inserted_vid: u32,
+    /// the object behind a returned `&mut V` was a live element when it was handed out
+    live: bool,
 }
 
 impl<'c, KD: Kind, const N: usize> MapEng<'c, KD, N> {
@@ -68,10 +72,11 @@ impl<'c, KD: Kind, const N: usize> MapEng<'c, KD, N> {
             let mut seen_key: Option<(u8, u32)> = None;
             let m = &mut slot.c.m;
             let r: Result<Rep, Pk> = Self::lib(cx, || {
-                let mut rep = Rep { vid: NOID, kid: NOID, out_vid: NOID, inserted_vid: NOID, ..Default::default() };
+                let mut rep = Rep { vid: NOID, kid: NOID, out_vid: NOID, inserted_vid: NOID, live: true, ..Default::default() };
                 let e = m.entry(key);
                 rep.occupied = Some(matches!(e, Entry::Occupied(_)));
                 let mut through = |r: &mut KD::V, rep: &mut Rep| {
+                    rep.live = KD::vlive(r);
                     rep.val = Some(KD::vval(r));
                     rep.vid = KD::vid(r);
                     rep.va = addr(r);
@@ -119,6 +124,7 @@ impl<'c, KD: Kind, const N: usize> MapEng<'c, KD, N> {
                         let kk = e.key();
                         rep.kraw = Some(KD::kraw(kk));
                         rep.kid = KD::kid(kk);
+                        rep.ka = addr(kk);
                         drop(val);
                     }
                     _ => match e {
@@ -127,6 +133,7 @@ impl<'c, KD: Kind, const N: usize> MapEng<'c, KD, N> {
                                 let kk = o.key();
                                 rep.kraw = Some(KD::kraw(kk));
                                 rep.kid = KD::kid(kk);
+                                rep.ka = addr(kk);
                                 drop(val);
                             }
                             11 => {
@@ -201,6 +208,13 @@ impl<'c, KD: Kind, const N: usize> MapEng<'c, KD, N> {
             let inserts_if_vacant = matches!(msub, 0 | 1 | 2 | 3 | 4 | 22);
             match &r {
                 Ok(rep) => {
+                    // whatever Eq answers: a handed-out `&mut V` refers to a live element stored
+                    // inside the map (it is written through right away)
+                    if rep.val.is_some() {
+                        let p_mem = PS::of(Prop::C17).and(Prop::C02).and(Prop::C11);
+                        cx.chk(p_mem, rep.live, "dead-ref", || format!("{name}: the returned reference does not refer to a live element"));
+                        cx.chk(PS::of(Prop::C17), slot.c.contains(rep.va, std::mem::size_of::<KD::V>()), "addr", || format!("{name}: the returned reference points outside the map"));
+                    }
                     cx.chk(P11, rep.occupied == Some(present.is_some()), "classification", || format!("entry({k}) is {:?} but the key is {}", rep.occupied.map(|o| if o { "Occupied" } else { "Vacant" }), if present.is_some() { "present" } else { "absent" }));
                     // closures
                     match msub {
@@ -230,6 +244,11 @@ impl<'c, KD: Kind, const N: usize> MapEng<'c, KD, N> {
                             cx.chk(P_ADDR.and(Prop::C11), slot.c.contains(rep.va, std::mem::size_of::<KD::V>()), "addr", || format!("{name}: returned reference points outside the map"));
                         }
                         if let Some(kr) = rep.kraw {
+                            if rep.ka != 0 {
+                                // the key of an occupied entry is the stored element
+                                cx.bump(S::addr_checks);
+                                cx.chk(P_ADDR, slot.c.contains(rep.ka, std::mem::size_of::<KD::K>()), "addr", || format!("{name}: the key reference of an occupied entry points outside the map"));
+                            }
                             cx.chk(P11, kr == k, "key", || format!("{name}: exposes key {kr}, expected {k}"));
                             if KD::TRACKED && msub != 5 || KD::TRACKED && msub == 5 {
                                 cx.chk(P12.and(Prop::C11), rep.kid == e.kid, "exposed-key-identity", || format!("{name}: exposes key object #{}, stored is #{}", rep.kid, e.kid));
